@@ -91,7 +91,11 @@ def handle (toks : List String) : String :=
   match toks with
   | ["s", _, c] =>
     match toChars? c with
-    | some txt => s!"P:{parseRecord txt} {prologueRecord txt}\t-"
+    | some txt =>
+      -- the parser model re-measures its pending input at every token wait: quadratic in the
+      -- text length; long texts (mutated corpus scripts) are compared by the `parse` channel of
+      -- C13 instead, here only texts up to 300 runes
+      if txt.length > 300 then "P:* G:*\t-" else s!"P:{parseRecord txt} {prologueRecord txt}\t-"
     | none => "bad-op\t-"
   | ["e", a, l, f, t] =>
     match alphabet a, l.toNat?, f.toNat?, t.toNat? with
